@@ -385,6 +385,13 @@ DeleteOnlyAfterDelivery ==
 FailedReapKeepsCrop ==
     [][outcome' \in {"error", "error_nothing", "refused"} => UNCHANGED <<dir, res, batch, store>>]_vars
 
+(* Liveness (C08, "growing the missing batches ... makes the crop ready"): with the calls that make progress treated
+   fairly and no environment interference, the crop becomes ready - also when the function first has to be corrected
+   and re-sown.  Checked with Record = FALSE (no step bound) on profiles without delete / corrupt / reap. *)
+LiveSpec == Spec /\ WF_vars(DoSow) /\ WF_vars(DoGrowMissing) /\ WF_vars(DoFixFn) /\ SF_vars(DoReSow)
+EventuallyReady == <>(dir = "present" /\ Complete)
+ReadyIsStable == [][(dir = "present" /\ Complete) => (dir' = "present" /\ Finished' = Finished)]_vars
+
 TypeOK == /\ dir \in {"none", "present", "deleted"}
           /\ outcome \in {"none", "ok", "raised", "refused", "error", "error_nothing", "complete", "partial"}
 
